@@ -1,5 +1,5 @@
 from vfw.spec import Unit, Fn, Type, Impl, C, Loop, Rewrite, Insert
-from units.common import itemref_items
+from units.common import itemref_items, deflist_fns
 
 F = "src/asm/defs/ruledef_map.rs"
 
@@ -49,6 +49,51 @@ insert = Fn(F, "insert", impl="RuledefMap", slot="defs", props=["C08", "C03"],
     inserts=[Insert("        let entry = RuledefMapEntry {", "        proof { lemma_lead_total(rule.pattern@, prefix_index as int); assert(prefix@ =~= rule_key(rule.pattern@)); assert forall|k: RuledefMapPrefix| #[trigger] k@ =~= rule_key(rule.pattern@) implies k == prefix by { assert(k@ =~= prefix@); assert(k =~= prefix); } }\n", where="before")],
 )
 
+get_rule = Fn(FRD, "get_rule", impl="Ruledef", slot="defs", ret="res", key="Ruledef::get_rule", props=["C03"],
+    requires=[C("in_range", "rule_ref.0 < self.rules@.len()", ["C03"])],
+    ensures=[C("the_rule", "*res == self.rules@[rule_ref.0 as int]", ["C08"])])
+
+ENTRY = "RuledefMapEntry { ruledef_ref: util::ItemRef::<Ruledef>(%s as usize, core::marker::PhantomData), rule_ref: util::ItemRef::<Rule>(%s as usize, core::marker::PhantomData) }"
+ALLDEF = "(forall|d: int| 0 <= d < ruledefs.defs@.len() ==> #[trigger] ruledefs.defs@[d] is Some)"
+build = Fn(F, "build", impl="RuledefMap", slot="defs", props=["C08", "C03"], key="RuledefMap::build",
+    requires=[C("ruledefs_defined", ALLDEF, ["C03"])],
+    ensures=[
+        C("every_rule_of_every_ruledef_is_filed_under_its_key", "forall|d: int, r: int| 0 <= d < ruledefs.defs@.len() && !(ruledefs.defs@[d]->0).is_subruledef && 0 <= r < (ruledefs.defs@[d]->0).rules@.len() ==> #[trigger] rule_filed(final(self), ruledefs, d, r)", ["C08"]),
+        C("nothing_is_removed", "buckets_grow(old(self), final(self))", ["C08"]),
+    ],
+    rewrites=[Rewrite("for rule_ref in ruledef.iter_rule_refs()\n            {", "for verif_rule_index in 0..ruledef.rules.len()\n            { let rule_ref = util::ItemRef::<asm::Rule>::new(verif_rule_index);", rule="R32",
+                      why="`iter_rule_refs()` returns `impl Iterator` (`(0..rules.len()).map(ItemRef::new)`), which Verus cannot iterate: the call is replaced by that definition (range + the map applied at the top of the body)")],
+    for_to_while=[1],
+    loops={
+        1: Loop(invariant=[
+            C("defined", ALLDEF + " && verif_hi_1 == ruledefs.defs@.len() && verif_next_1 <= verif_hi_1"),
+            C("filed_so_far", "forall|d: int, r: int| 0 <= d < verif_next_1 && !(ruledefs.defs@[d]->0).is_subruledef && 0 <= r < (ruledefs.defs@[d]->0).rules@.len() ==> #[trigger] rule_filed(self, ruledefs, d, r)"),
+            C("grown", "buckets_grow(old(self), self)"),
+        ], decreases="verif_hi_1 - verif_next_1"),
+        2: Loop(invariant=[
+            C("ctx", ALLDEF + " && i < ruledefs.defs@.len() && *ruledef == ruledefs.defs@[i as int]->0 && ruledef_ref.0 == i && !ruledef.is_subruledef"),
+            C("earlier", "forall|d: int, r: int| 0 <= d < i && !(ruledefs.defs@[d]->0).is_subruledef && 0 <= r < (ruledefs.defs@[d]->0).rules@.len() ==> #[trigger] rule_filed(self, ruledefs, d, r)"),
+            C("this_ruledef_so_far", "forall|r: int| 0 <= r < verif_rule_index ==> #[trigger] rule_filed(self, ruledefs, i as int, r)"),
+            C("grown", "buckets_grow(old(self), self)"),
+        ], body_start=" let ghost before = *self;",
+           body_end=""" proof {
+                    let entry = RuledefMapEntry { ruledef_ref: ruledef_ref, rule_ref: rule_ref };
+                    assert forall|k: RuledefMapPrefix, e: RuledefMapEntry| (#[trigger] before.bucket(k).contains(e)) implies self.bucket(k).contains(e) by {
+                        lemma_push_contains(before.bucket(k), entry);
+                    }
+                    assert forall|k: RuledefMapPrefix| k@ =~= rule_key(rule.pattern@) implies (#[trigger] self.bucket(k)).contains(entry) by {
+                        lemma_push_contains(before.bucket(k), entry);
+                    }
+                    assert(entry == RuledefMapEntry { ruledef_ref: util::ItemRef::<Ruledef>(i, core::marker::PhantomData), rule_ref: util::ItemRef::<Rule>(verif_rule_index, core::marker::PhantomData) });
+                    assert(rule_filed(self, ruledefs, i as int, verif_rule_index as int));
+                    assert(buckets_grow(&before, self));
+                    assert forall|d: int, r: int| rule_filed(&before, ruledefs, d, r) implies #[trigger] rule_filed(self, ruledefs, d, r) by {
+                        lemma_filed_mono(&before, self, ruledefs, d, r);
+                    }
+                }"""),
+    },
+)
+
 UNIT = Unit(
     "U-rulemap", "u_rulemap/skeleton.rs",
     items=itemref_items("util") + [
@@ -59,7 +104,8 @@ UNIT = Unit(
         query_prefixed,
         Type(FRD, "struct", "Rule", slot="defs"), Type(FRD, "type", "RulePattern", slot="defs"), Type(FRD, "enum", "RulePatternPart", slot="defs"),
         insert,
-    ],
+        Type(FRD, "struct", "Ruledef", slot="defs"), Type("src/asm/defs/mod.rs", "struct", "DefList", slot="defs"), get_rule, build,
+    ] + [f.in_slot("defs") for f in deflist_fns("verify", "defs") if f.name in ("get", "len")],
     serves=["C08", "C03"],
     description="asm::defs::RuledefMap::query_prefixed: the rule prefix index is queried with every truncation of the instruction prefix",
 )
